@@ -26,7 +26,7 @@ ID = 'C01'
 HARNESS_BIN = 'c01'
 RUN_MODULE = 'Run.C01'
 REPO_BINS = ['sccache']
-THEOREMS = ['C01_table_wf', 'C01_no_argument_lost', 'C01_parse_total', 'C01_every_argument_placed', 'C01_listed_words_multiset',
+THEOREMS = ['C01_table_wf', 'C01_no_argument_lost', 'C01_command_complete', 'C01_parse_total', 'C01_every_argument_placed', 'C01_listed_words_multiset',
             'C01_dep_targets_kept', 'C01_every_result_affecting_arg_is_hashed', 'C01_class_side_conditions',
             'C01_dep_target_without_md_dropped', 'C01_x_rs_dropped', 'C01_resynthesis_fixpoint_refuted',
             'C01_resynthesis_fixpoint_partial', 'C01_hit_replays_stored', 'C01_failure_verbatim_never_stored',
@@ -35,8 +35,9 @@ ASSUMPTIONS = [
     'PARTIAL: gcc and clang are not modelled.  The theorems are about sccache\'s own classification (no argument lost, '
     'everything not explicitly exempt is hashed, table search well-formed); that the classification is right about the '
     'compilers and the end-to-end transparency are sampled by the e2e leg against the real gcc 12 / clang 14',
-    'argument words, @-file contents and file names are ASCII (to_string_lossy / to_str / read_to_string are the '
-    'identity there); non-UTF-8 words are outside the model',
+    'option spellings and @-file contents are ASCII (to_string_lossy / read_to_string are the identity on them; an @-file '
+    'that is not valid UTF-8 is not expanded by the real code); VALUES may hold arbitrary bytes: after the fix they are '
+    'carried verbatim, which the differential leg exercises with 0xe9 / 0xff 0xfe / UTF-8 values',
     'reviewed lists in Proofs/ArgTables.v: PreprocOnly, DependencyOnly, and the two S19 rows PreprocDebatable '
     '(-verify, -no-opaque-pointers: act on the compile proper but are classified preprocessor-only; not reproducible '
     'as a wrong result with clang 14)',
@@ -47,6 +48,8 @@ TRUSTED = [
     'matches of gcc::parse_arguments, the -x / extension / language_to_*_arg tables (every row is also exercised by the '
     'differential legs; unknown syntax raises)',
     'hook gcc::verif_preprocess_args (records the argument vector of the private preprocess_cmd with a MockCommand)',
+    'e2e/c01_e2e.py: drives the real sccache binary and the real gcc 12 / clang 14 (snapshot / restore of the tree, '
+    'byte-for-byte comparison, /proc scan for servers); Model/ReqSM.v + Proofs/ReqSM.v (C09/C14) for the request-level theorems',
 ]
 
 GEN_DIR = os.path.join(pipeline.COQ, 'theories', 'Gen')
@@ -206,10 +209,6 @@ def gen_files(rng, spec, kind):
             content += rng.choice(WS)
         files.append([name, content])
     return files
-
-
-def no_self_ref(files):
-    return True
 
 
 def gen_parse(rng, n):
@@ -637,9 +636,43 @@ def _known_with_local(pid):
 _orig_load_known = pipeline.load_known
 
 
+def replay_e2e(path, data):
+    """./check C01 --replay <file> for a violation found by the e2e leg: re-runs that history against the current tree"""
+    sys.path.insert(0, os.path.join(pipeline.VERIF, 'e2e'))
+    import hashlib
+    import c01_e2e
+    from ..prng import Rng
+    info = json.loads(data['case'])
+    ok, out = pipeline.build_harness([HARNESS_BIN])
+    ok2, out2 = pipeline.build_repo_bins(['sccache'])
+    c01_argtables.main(pipeline.REPO, GEN_DIR, ARGTYPES)
+    ok3, out3 = pipeline.coq_make(['theories/Run/C01.vo'])
+    ok4, out4 = pipeline.build_modelrun(ID, RUN_MODULE) if ok3 else (False, out3)
+    if not (ok and ok2 and ok3 and ok4):
+        print('build failed'); print((out + out2 + out3 + str(out4))[-3000:])
+        return 1
+    hid, seed = int(info['history']), int(data.get('seed', 1))
+    v = c01_e2e.Verdict()
+    known_ids = {k['id'] for k in _known_with_local(ID)}
+    rng = Rng(int.from_bytes(hashlib.sha256(b'C01:e2e:%d:%d' % (seed, hid)).digest()[:7], 'big'))
+    c01_e2e.run_history(hid, rng, pipeline.repo_bin('sccache'), _model_predict_fn(), 29000 + hid % 2000, v,
+                        int(info.get('n_ops', 9)), known_ids)
+    print('history %d (seed %d): %d requests, %d violations' % (hid, seed, v.requests, len(v.violations)))
+    for kind, detail, r in v.violations:
+        print('%s: %s' % (kind, detail[:3000]))
+    if v.violations:
+        print('VIOLATION property=%s replay=%s' % (ID, path))
+        return 1
+    return 0
+
+
 def check(tier, seed, replay=None):
     pipeline.load_known = _known_with_local
     try:
+        if replay:
+            data = json.load(open(replay))
+            if data.get('leg') == 'e2e':
+                return replay_e2e(replay, data)
         return pipeline.standard_check(sys.modules[__name__], tier, seed, replay)
     finally:
         pipeline.load_known = _orig_load_known
@@ -666,9 +699,6 @@ def extra(rep, known):
     if os.environ.get('VERIF_C01_SKIP_E2E') == '1':      # development aid only; the registered commands never set it
         rep.notes.append('e2e leg skipped (VERIF_C01_SKIP_E2E=1)')
         return
-    import subprocess as _sp
-    global subprocess
-    subprocess = _sp
     sys.path.insert(0, os.path.join(pipeline.VERIF, 'e2e'))
     import c01_e2e
     from concurrent.futures import ThreadPoolExecutor
